@@ -2,7 +2,7 @@
    invariant state machine Sem/InvModel.v (InvariantedClass, source pinned by Gen/ObjPin.v). *)
 From Coq Require Import List ZArith Bool String.
 Import ListNotations.
-Require Import Base Show InvModel ObjPin Invariants.
+Require Import Base Show InvModel InvCode Invariant ObjPin Invariants Refine.
 Open Scope string_scope.
 
 Theorem C05_completed_implies_inv : forall cls invs s o s1 r,
@@ -25,6 +25,23 @@ Proof. exact disabled_inert. Qed.
 Print Assumptions C05_not_entered_when_broken.
 Print Assumptions C05_no_rollback.
 Print Assumptions C05_disabled_inert.
+
+(* the tie to the source: the statements of InvariantedClass regenerated from deal/_runtime/_invariant.py on every run
+   (Gen/Invariant.v), run by Sem/InvCode.v, are the state machine the theorems above are about *)
+Theorem C05_code_refines_model : forall cls invs s o, step_code code cls invs s o = Some (step cls invs s o).
+Proof. exact step_code_is_step. Qed.
+Print Assumptions C05_code_refines_model.
+Theorem C05_code_history : forall cls invs h s, run_history_code cls invs s h = Some (run_history cls invs s h).
+Proof. exact history_code_is_history. Qed.
+Theorem C05_code_own_attributes_raw :
+  forallb (fun n => match getattribute code (KDeal n) with Some false => true | _ => false end)
+          ["_deal_validate"; "_deal_patched_method"; ATTR] = true.
+Proof. exact getattribute_deal_attrs. Qed.
+Theorem C05_code_stacking_order : forall (A : Type) (v : A) (vs : list A),
+  decorate_all (c_invariant code) false None (v :: vs) = Some (Some (v :: vs)).
+Proof. exact decorate_order. Qed.
+Print Assumptions C05_code_history.
+Print Assumptions C05_code_stacking_order.
 
 (* refuted at full strength for the `_` form: an attribute that lives at class level only cannot be read *)
 Theorem C05_short_form_class_attribute_refuted :
